@@ -1,5 +1,211 @@
-(* C02loop — property theorems (being written) *)
+(* C02loop — property theorems for the "loop" pass of the optimizer (loop_optimizations.rs and the five files it
+   drives), over the MIR fragment and semantics of C02deep (Syntax.v / Sem.v).  The models (Analysis.v, Licm.v,
+   Algebraic.v, StrengthIv.v, Driver.v) mirror the Rust code statement by statement and are compared with the real
+   pass on every run of the check (Corr.v, checks/c02_loop.py). *)
 From Coq Require Import ZArith NArith List Bool.
 Import ListNotations.
-From SV Require Import Common.Int32 C02deep.Syntax C02deep.Sem C02loop.Driver.
+From SV Require Import Common.Int32 C02.Kernels C02deep.Syntax C02deep.Sem C02deep.Passes C02deep.ProofsScope
+  C02loop.Analysis C02loop.Licm C02loop.Algebraic C02loop.StrengthIv C02loop.Driver C02loop.Classes
+  C02loop.ProofsBase C02loop.ProofsLicm C02loop.ProofsAnalysis C02loop.ProofsExpand C02loop.ProofsAlgebraic
+  C02loop.ProofsWitness.
 Open Scope Z_scope.
+
+(* ================================================================== (2) loop-invariant code motion *)
+(* The code after fix 3d66ed3.  For every loop whose binders are pairwise distinct and new with respect to the
+   scope S in front of it (single assignment) and whose reads are in scope: running the hoisted statements and
+   then the loop with the remaining body gives EXACTLY the result of the original loop on the target semantics:
+   the same normal end in an environment that agrees on everything in scope afterwards, the same trap, the same
+   abort of a callee, the same call trace, the same use of fuel. *)
+Theorem C02loop_licm_preserves : forall w fuel S lvs ss bc hoisted inner ninv en tr,
+  licm lvs ss = (hoisted, inner, ninv) ->
+  scoped S (SWhile lvs ss bc) = true ->
+  NoDup (binders (SWhile lvs ss bc)) ->
+  (forall x, In x (binders (SWhile lvs ss bc)) -> ~ In x S) ->
+  match exec Wrap w fuel (SWhile lvs ss bc) en tr with
+  | RNext e1 t => exists e1', exec_block Wrap w fuel (hoisted ++ [SWhile lvs inner bc]) en tr = RNext e1' t /\
+                              agree w (opt_names bc ++ S) e1 e1'
+  | o => exec_block Wrap w fuel (hoisted ++ [SWhile lvs inner bc]) en tr = o
+  end.
+Proof. exact licm_sound. Qed.
+
+(* the code before that fix hoisted divisions: a trap on a run that never divides, a call lost in front of a trap *)
+Theorem C02loop_licm_old_refuted :
+  exists f f' fl,
+    wf_func f = true /\ loop_pass_v (true, false) sup0 f = Some (f', fl) /\
+    sem All ww f [5; 0] 10 = Done 5 [] /\ sem Wrap ww f' [5; 0] 10 = Trap [] /\
+    sem Wrap ww f [0; 0] 10 = Trap [(0%N, [0])] /\ sem Wrap ww f' [0; 0] 10 = Trap [].
+Proof. exact licm_old_refuted. Qed.
+Theorem C02loop_licm_repaired_on_old_witness :
+  exists f' fl,
+    loop_pass sup0 f_licm_div = Some (f', fl) /\ f_licm fl = 0%N /\ f_extract fl = 1%N /\
+    sem Wrap ww f' [5; 0] 10 = Done 5 [] /\ sem Wrap ww f' [0; 0] 10 = Trap [(0%N, [0])] /\
+    sem Wrap ww f' [1; 2] 10 = Done 3 [(1%N, [5]); (0%N, [2]); (1%N, [5]); (0%N, [1])] /\
+    sem Wrap ww f_licm_div [1; 2] 10 = Done 3 [(1%N, [5]); (0%N, [2]); (1%N, [5]); (0%N, [1])].
+Proof. exact licm_repaired_on_old_witness. Qed.
+
+(* ================================================================== (1) the induction analysis is sound *)
+(* the shape extract_loop_guard_structure accepts *)
+Theorem C02loop_guard_shape : forall ss bc ninv g,
+  extract_guard ss bc ninv = XOk g ->
+  exists cc op ge inv sis rest,
+    ss = SBin cc op (EVar (lg_var g)) ge :: SSIf (EVar cc) inv sis :: rest /\
+    get_guard_operator op inv = Some (lg_op g) /\ get_inv ge ninv = Some (lg_guard g) /\
+    length sis = 1%nat /\ no_break_l rest = true /\
+    match bc with
+    | Some b => exists e, sis = [SBreak e] /\ lg_bc g = Some (b, e)
+    | None => lg_bc g = None
+    end.
+Proof. exact extract_guard_shape. Qed.
+
+(* ... and its meaning: in every checking mode, from every environment, the first two statements of the body go
+   on to the rest of the body exactly when the extracted guard `i op g` holds (i the guarded variable, g the
+   invariant bound), and otherwise run the statement under the `if` (the Break) *)
+Theorem C02loop_guard_sound : forall m w fuel cc op iv ge inv sis g p ninv en tr,
+  get_guard_operator op inv = Some g -> get_inv ge ninv = Some p ->
+  exists c : bool,
+    let en' := (cc, b2z c) :: en in
+    guard_holds g (wrap32 (lookup iv en)) (pv w en p) = negb (xorb c inv) /\
+    exec_block m w fuel [SBin cc op (EVar iv) ge; SSIf (EVar cc) inv sis] en tr =
+    if guard_holds g (wrap32 (lookup iv en)) (pv w en p) then RNext en' tr
+    else exec_block m w fuel sis en' tr.
+Proof. exact guard_sound. Qed.
+
+(* every recognised basic induction variable is a loop variable whose loop value is a collector computed by a
+   top-level statement `collector = variable + increment` with an invariant increment; the other loop variables
+   are kept as they are; every loop variable is one or the other *)
+Theorem C02loop_basic_sound : forall lvs rest ninv bs os,
+  extract_basic_loop lvs rest ninv = (bs, os) ->
+  (forall b, In b bs -> In (gc_name b, gc_init b, EVar (gc_coll b)) lvs /\
+                        exists e2, In (SBin (gc_coll b) PLUS (EVar (gc_name b)) e2) rest /\ get_inv e2 ninv = Some (gc_inc b)) /\
+  (forall o, In o os -> In o lvs) /\
+  (forall lv, In lv lvs -> In lv os \/ exists b, In b bs /\ gc_name b = t_name lv).
+Proof. exact extract_basic_loop_sound. Qed.
+
+(* every recognised derived induction variable d = (base, multiplier, immediate): base is a basic induction
+   variable, and at the end of EVERY iteration that runs to its end (in every checking mode), d holds
+   multiplier * base + immediate modulo 2^32, with base, multiplier and immediate read at the head of the iteration.
+   Hypotheses: the top-level binders of the body are pairwise distinct, none of them is a basic induction
+   variable, and every name outside the non-invariant set is not bound in the body (true of the set computed by
+   loop-invariant code motion on well-scoped single-assignment code). *)
+Theorem C02loop_derived_sound : forall m w fuel ninv bs rest e0 tr e1 t,
+  NoDup (binders_l rest) ->
+  (forall b, In b bs -> ~ In (gc_name b) (binders_l rest)) ->
+  (forall v, ~ In v ninv -> ~ In v (binders_l rest)) ->
+  exec_block m w fuel rest e0 tr = RNext e1 t ->
+  forall d, In d (extract_derived bs rest ninv) ->
+    In (dn_base d) (map gc_name bs) /\
+    eq32 (lookup (dn_name d) e1)
+         (pv w e0 (dn_mult d) * lookup (dn_base d) e0 + pv w e0 (dn_imm d)).
+Proof. exact derived_sound. Qed.
+
+(* the analysis before fix 8c133db accepted loops in which the name of the dropped guard comparison is still
+   read: the output reads a name that is defined nowhere *)
+Theorem C02loop_guard_name_old_refuted :
+  exists f f' fl,
+    wf_func f = true /\ loop_pass_v (false, true) sup0 f = Some (f', fl) /\ wf_func f' = false /\
+    sem All ww f [1] 10 = Done 3 [(0%N, [1]); (0%N, [1])] /\
+    sem Wrap ww f' [1] 10 = Done 3 [(0%N, [0]); (0%N, [0])].
+Proof. exact guard_name_old_refuted. Qed.
+Theorem C02loop_guard_name_repaired_on_old_witness :
+  exists fl, loop_pass sup0 f_guard_used = Some (f_guard_used, fl) /\ f_extract fl = 0%N.
+Proof. exact guard_name_repaired_on_old_witness. Qed.
+
+(* ================================================================== the loop that is built from the analysis *)
+(* Driver.expand builds ProofsExpand.xloop, with the temporaries it allocates as parameters *)
+Theorem C02loop_expand_shape : forall o sup,
+  exists coll cc ns ts,
+    fst (expand o sup) = xloop o coll cc (combine (kept_generals o) ns) ts /\
+    length ns = length (kept_generals o) /\ length ts = length (o_derived o).
+Proof. exact expand_xloop. Qed.
+
+(* ================================================================== (3) the closed form of counting loops *)
+(* If loop_algebraic_optimization replaces the loop by `stmts`, then every run of the loop (target semantics) that
+   ends normally is reproduced by `stmts`: same trace, same value of the break collector, every other name
+   untouched - PROVIDED the value with which the guarded induction variable leaves the loop, i0 + inc * K with K
+   the trip count (C02.Kernels.trip, proved exact in C02/Props.v), is representable (alg_exit_in32; the code
+   checks it itself when that value is the result).  Then every intermediate value is representable too; the
+   other induction variables are computed modulo 2^32 on both sides, so no other side condition is needed. *)
+Theorem C02loop_alg_closed_form : forall w fuel fuel' o sup stmts sup' coll cc ns en tr e1 t,
+  alg o sup = Some (stmts, sup') ->
+  alg_lits o -> alg_exit_in32 o -> alg_names o coll cc ns (fst (alloc sup)) ->
+  exec Wrap w fuel (xloop o coll cc (combine (kept_generals o) ns) []) en tr = RNext e1 t ->
+  exists e2,
+    exec_block Wrap w fuel' stmts en tr = RNext e2 t /\
+    (forall n, bc_of o = Some n -> wrap32 (lookup n e1) = wrap32 (lookup n e2)) /\
+    (forall y, ~ In y (bg_name (o_basic o) :: map gi_name (kept_generals o) ++ coll :: cc :: ns) ->
+               ~ In y (opt_names (bc_of o)) -> y <> fst (alloc sup) -> lookup y e1 = lookup y e2).
+Proof. exact alg_sound. Qed.
+
+(* the side condition is needed: a loop whose exit value is not representable wraps around and runs 8 times where
+   the closed form says once (an excluded run: it overflows) *)
+Theorem C02loop_alg_exit_condition_needed :
+  exists stmts sup' W,
+    alg o_alg_wrap sup0 = Some (stmts, sup') /\ fst (expand o_alg_wrap sup0) = W /\
+    trip GLT 1073741829 1073741825 1073741834 = Some 1 /\ ~ in32 (1073741829 + 1073741825 * 1) /\
+    (exists e1, exec Wrap ww 40 W [] [] = RNext e1 [] /\ lookup 9%N e1 = 8) /\
+    (exists e2, exec_block Wrap ww 40 stmts [] [] = RNext e2 [] /\ lookup 9%N e2 = 1).
+Proof. exact alg_exit_condition_needed. Qed.
+
+(* ================================================================== (4) induction-variable elimination: refuted *)
+(* open finding C02-iv-elimination-guard: the rewritten guard is always `<` on wrapped products.  Each of the
+   conditions of the class is needed (the first two are the class as first registered): *)
+Theorem C02loop_ive_guard_operator_refuted :
+  exists f f' fl,
+    wf_func f = true /\ loop_pass sup0 f = Some (f', fl) /\ f_ive fl = 1%N /\
+    sem All ww f [0; 0] 40 = Done 30 [] /\ sem Wrap ww f' [0; 0] 40 = Done 27 [].
+Proof. exact ive_guard_operator_refuted. Qed.
+Theorem C02loop_ive_negative_multiplier_refuted :
+  exists f f' fl,
+    wf_func f = true /\ loop_pass sup0 f = Some (f', fl) /\ f_ive fl = 1%N /\
+    sem All ww f [0; 7] 40 = Done (-18) [] /\ sem Wrap ww f' [0; 7] 40 = Done 7 [].
+Proof. exact ive_negative_multiplier_refuted. Qed.
+Theorem C02loop_ive_bound_overflow_refuted :
+  exists f f' fl,
+    wf_func f = true /\ loop_pass sup0 f = Some (f', fl) /\ f_ive fl = 1%N /\
+    sem All ww f [715827880; 0] 40 = Done 2147483646 [] /\ sem Wrap ww f' [715827880; 0] 40 = Done 0 [].
+Proof. exact ive_bound_overflow_refuted. Qed.
+Theorem C02loop_ive_initial_overflow_refuted :
+  exists f f' fl,
+    wf_func f = true /\ loop_pass sup0 f = Some (f', fl) /\ f_ive fl = 1%N /\
+    sem All ww f [1000000000; 77] 40 = Done 77 [] /\ sem Wrap ww f' [1000000000; 77] 40 = OutOfFuel.
+Proof. exact ive_initial_overflow_refuted. Qed.
+Theorem C02loop_ive_exit_overflow_refuted :
+  exists f f' fl,
+    wf_func f = true /\ loop_pass sup0 f = Some (f', fl) /\ f_ive fl = 1%N /\
+    in32 (5368709 * 400) /\ in32 (5368709 * 0) /\
+    sem All ww f [0; 0] 100 = Done 2142114891 [] /\ sem Wrap ww f' [0; 0] 100 = OutOfFuel.
+Proof. exact ive_exit_overflow_refuted. Qed.
+
+(* ================================================================== non-vacuity *)
+Example C02loop_nonvacuous :
+  exists f' fl,
+    wf_func f_all = true /\ loop_pass sup0 f_all = Some (f', fl) /\
+    f_licm fl = 1%N /\ f_extract fl = 1%N /\ f_sr fl = 1%N /\ f' <> f_all /\
+    classes_func f_all = [0; 0; 0; 0; 0; 0; 0]%N /\
+    sem All ww f_all [14] 20 = sem Wrap ww f' [14] 20 /\
+    sem All ww f_all [14] 20 = Done 147 [(0%N, [10; 98]); (0%N, [5; 98]); (0%N, [0; 98])].
+Proof. exact loop_pass_nonvacuous. Qed.
+Example C02loop_alg_nonvacuous :
+  exists f' fl,
+    wf_func f_count = true /\ loop_pass sup0 f_count = Some (f', fl) /\ f_alg fl = 1%N /\
+    f_body f' = [SBin 101%N MUL (EInt 7) (EInt 4); SBin 7%N PLUS (EVar 101%N) (EInt 100)] /\
+    sem All ww f_count [] 20 = Done 128 [] /\ sem Wrap ww f' [] 20 = Done 128 [].
+Proof. exact alg_nonvacuous. Qed.
+
+Print Assumptions C02loop_licm_preserves.
+Print Assumptions C02loop_licm_old_refuted.
+Print Assumptions C02loop_licm_repaired_on_old_witness.
+Print Assumptions C02loop_guard_shape.
+Print Assumptions C02loop_guard_sound.
+Print Assumptions C02loop_basic_sound.
+Print Assumptions C02loop_derived_sound.
+Print Assumptions C02loop_guard_name_old_refuted.
+Print Assumptions C02loop_guard_name_repaired_on_old_witness.
+Print Assumptions C02loop_expand_shape.
+Print Assumptions C02loop_alg_closed_form.
+Print Assumptions C02loop_alg_exit_condition_needed.
+Print Assumptions C02loop_ive_guard_operator_refuted.
+Print Assumptions C02loop_ive_negative_multiplier_refuted.
+Print Assumptions C02loop_ive_bound_overflow_refuted.
+Print Assumptions C02loop_ive_initial_overflow_refuted.
+Print Assumptions C02loop_ive_exit_overflow_refuted.
